@@ -165,17 +165,33 @@ fn bind_vars<'a, D: DataT, T: 'a + Clone>(
             (ctx, cv.1),
             |y, (ctx, v)| Ok((ctx.cons_var(y?), v)),
         ),
-        Some((Arg::Fun(arg), [])) => box_once(Ok((ctx.cons_fun((*arg, cv.0)), cv.1))),
+        Some((Arg::Fun(arg), [])) => box_once(Ok((ctx.cons_fun(closure(arg, cv.0)), cv.1))),
         Some((Arg::Var(arg), rest)) => flat_map_then_with(
             arg.run((cv.0.clone(), proj(&cv.1))),
             (ctx, cv),
             move |y, (ctx, cv)| bind_vars(rest, ctx.cons_var(y), cv, proj),
         ),
         Some((Arg::Fun(arg), rest)) => {
-            bind_vars(rest, ctx.cons_fun((*arg, cv.0.clone())), cv, proj)
+            bind_vars(rest, ctx.cons_fun(closure(arg, cv.0.clone())), cv, proj)
         }
         None => box_once(Ok((ctx, cv.1))),
     }
+}
+
+/// Closure of the filter argument `arg` in the context `ctx` of the caller.
+///
+/// An argument that merely passes on a filter argument of the caller,
+/// such as `g` in `def f(g): ... f(g)`, reuses the closure bound to it.
+/// Wrapping it again would make every recursive call lengthen the chain of closures
+/// that has to be followed (on the native stack) whenever the argument is run,
+/// which defeats tail-call optimisation for such definitions.
+fn closure<'a, D: DataT>(arg: &'a Id, ctx: Ctx<'a, D>) -> (Id, Ctx<'a, D>) {
+    if let Ast::Var(v) = &ctx.lut().terms[arg.0] {
+        if let Some(Bind::Fun((id, vars))) = ctx.vars.get(*v) {
+            return (*id, ctx.with_vars(vars.clone()));
+        }
+    }
+    (*arg, ctx)
 }
 
 fn bind_pat<'a, D: DataT>(
